@@ -1529,6 +1529,9 @@ func typeString(t types.Type) string {
 // fnName: library functions get the short name; others the qualified SSA name.
 func (it *interp) fnName(fn *ssa.Function) string {
 	if it.prog.isLib(fn) {
+		if fn.Parent() != nil {
+			return it.prog.FuncName(fn) // closures keep the name of the function their code belongs to
+		}
 		return it.prog.rawName(fn)
 	}
 	return qualName(fn)
